@@ -361,3 +361,37 @@ func rowsEqual(a, b [][]string) bool {
 	}
 	return true
 }
+
+// listingFault cross-checks the key listings of a store against its own point lookups.
+func listingFault(db objects.Store) string {
+	for _, e := range []struct {
+		prefix string
+		list   func(objects.Store) ([][]byte, error)
+	}{
+		{pCom, objects.GetAllCommitKeys}, {pTbl, objects.GetAllTableKeys}, {pTblIdx, objects.GetAllTableIndexKeys},
+		{pTblSum, objects.GetAllTableProfileKeys}, {pBlk, objects.GetAllBlockKeys}, {pBlkIdx, objects.GetAllBlockIndexKeys},
+	} {
+		a, err := e.list(db)
+		if err != nil {
+			return ""
+		}
+		seen := map[string]bool{}
+		for _, k := range a {
+			if seen[string(k)] {
+				return fmt.Sprintf("listing of %s names key %x twice (%d keys listed)", e.prefix, k, len(a))
+			}
+			seen[string(k)] = true
+			if !db.Exist(append([]byte(e.prefix), k...)) {
+				return fmt.Sprintf("listing of %s names key %x, which the store does not hold", e.prefix, k)
+			}
+		}
+		b, err := e.list(db)
+		if err != nil {
+			return ""
+		}
+		if len(a) != len(b) {
+			return fmt.Sprintf("two listings of %s give %d and %d keys", e.prefix, len(a), len(b))
+		}
+	}
+	return ""
+}
